@@ -250,7 +250,19 @@ func genPubFuzz(r *rand.Rand, n int, emit func(Op)) {
 				emit(Op{"op": "pubfuzz", "doc": string(bb), "as": "post", "widths": []any{80, 40}, "numbers": []any{0, 1, 2, 3}, "withid": false})
 			}
 		}
-		widths := []any{genWidth(r), pick(r, []int{-50, -5, -1, 0, 1, 2, 3, 4, 5, 8, 80, 300})}
+		second := pick(r, []int{-50, -5, -1, 0, 1, 2, 3, 4, 5, 8, 80, 300, 500, 1000, 2000, -65535, -(1 << 31)})
+		deepQuotes := false
+		for _, k := range []string{"content", "summary"} {
+			if t, ok := doc[k].(string); ok && strings.Contains(t, "<blockquote><blockquote><blockquote>") {
+				deepQuotes = true
+			}
+		}
+		if second > 300 && deepQuotes {
+			/* a rule inside deeply nested quotes is as wide as the terminal and re-styled at every
+			   level: the recorded finding (render time under deep block nesting) */
+			second = 300
+		}
+		widths := []any{genWidth(r), second}
 		numbers := []any{0, 1, 2, 3, -1, pick(r, []int{5, 10, 1 << 31, -(1 << 40), 9223372036854775807, -9223372036854775808})}
 		emit(Op{"op": "pubfuzz", "doc": string(b), "as": as, "widths": widths, "numbers": numbers, "withid": r.Intn(2) == 0})
 	}
